@@ -247,6 +247,11 @@ def pollOneoff (fixed : Bool) (fds : Fds) (m : Mem) (inp out n res : Nat) : Res 
   pollAfter fds inp inLen out outLen n res [(inp, inLen), (out, outLen), (res, 4)]
     { m := m1.write res (bytesLE 4 n), ws := Wr.bytes res (bytesLE 4 n) :: ws, nevents := 0, blocking := [] }
 
+/-- a write that happens when the pointer is inside the memory (the host code does not look at the result, or the
+call fails with EFAULT otherwise) -/
+def optRegion (m : Mem) (off len : Nat) : List Wr := if m.has off len then [Wr.region off len] else []
+def optBytes (m : Mem) (off : Nat) (bs : List Nat) : List Wr := if m.has off bs.length then [Wr.bytes off bs] else []
+
 /-! ### readv / writev (fs.go) -/
 
 inductive Reader where
@@ -349,7 +354,7 @@ def fdWriteCommon (w : Writer) (m : Mem) (iovs iovsCount res : Nat) : Res :=
   let iovsStop := w32 (iovsCount * 8)
   if !m.has iovs iovsStop then { err := efault } else
   match writevLoop w m iovs iovsStop (iovsStop / 8 + 1) 0 [(iovs, iovsStop)] 0 with
-  | (acc, _, some .any) => { err := .any, acc := acc.reverse, writes := [Wr.region res 4] }
+  | (acc, _, some .any) => { err := .any, acc := acc.reverse, writes := optRegion m res 4 }
   | (acc, _, some e) => { err := e, acc := acc.reverse }
   | (acc, nw, none) =>
     if !m.has res 4 then { err := efault, acc := acc.reverse }
@@ -499,9 +504,9 @@ def statLike (fds : Fds) (m : Mem) (fd res size : Nat) : Res :=
   | some _ => { err := .any, acc := [(res, size)], writes := [Wr.region res size] }
 
 /-- descriptor looked up first, result written last (fd_seek, fd_tell) -/
-def seekLike (fds : Fds) (fd res : Nat) : Res :=
+def seekLike (fds : Fds) (m : Mem) (fd res : Nat) : Res :=
   match lookupFd fds fd with
   | none => { err := ebadf }
-  | some _ => { err := .any, writes := [Wr.region res 8] }
+  | some _ => { err := .any, writes := optRegion m res 8 }
 
 end Wz.Model.Wasi
